@@ -17,7 +17,9 @@ Received bundles: any mix of previous-node / hop-count / bundle-age / unknown ex
 a kind, also with data that does not dissect), CRC types 0/1/2 per block, arbitrary unique block numbers (small
 ones that collide with numbers handed out earlier, gaps, 2^32, 2^64-1), creation time 0 / past / now / future,
 lifetime 0, fragments, administrative payloads, dtn / ipn / none EIDs (a few with '?' '#'), payload block not
-last / not numbered 1 (rare), duplicate block numbers (rare), own source (rare).
+last / not numbered 1 (rare; such a bundle breaks RFC 9171 4.1 / 4.3.3 itself, the oracle then does not ask for
+"payload last, numbered 1" on the way out - the model says it is forwarded in the order it came), duplicate block
+numbers (rare; the container raises, nothing is forwarded), own source (rare; ignored).
 
 Process state: forwarding must not depend on what the process forwarded before (on the original tree the number
 given to an inserted block stuck to scapy's class-level overloaded_fields dict; fixed by ed76b97).  Histories are
@@ -41,25 +43,26 @@ import bundlegen as bg
 import bpdrive as B
 
 # ---------------------------------------------------------------------------------------------- findings
-# signature = 'C11 / <oracle item> / <class of received bundle>'
-SIG_TIME0 = 'C11 / primary block changed / received creation time 0 (_apply_primary stamps this node\'s clock on a forwarded bundle)'
-SIG_LIFE0 = 'C11 / primary block changed / received lifetime 0 (_apply_primary substitutes 3600000)'
-SIG_EID = 'C11 / primary block changed / dtn EID with ? or # in a primary block without CRC (text conversion truncates it)'
-SIG_EID_ADMIN = 'C11 / payload changed / forwarded status report whose subject EID has ? or # (re-encoded truncated)'
-# fixed in /repo (ed76b97, 1355258; listed as status=fixed in known_findings.json): a tree that shows them again gets a VIOLATION
+# One signature per defect class (oracle failures outside these classes get 'C11 / <oracle item> / received bundle class {..}').
+SIG_TIME0 = "C11 / received creation time 0: forwarded with this node's clock as creation timestamp, Bundle Age block dropped"
+SIG_LIFE0 = 'C11 / received lifetime 0: forwarded with lifetime 3600000'
+SIG_EID = 'C11 / dtn EID with query or fragment loses it through urlsplit'          # the C02 class, seen on forwarded octets
+SIG_EID_ADMIN = SIG_EID                                                              # ... in the subject EID of a forwarded status report
+SIG_JUNK = 'C11 / received type-6 or type-7 block whose data does not dissect is kept next to the new one'
+SIG_PREVJUNK = SIG_JUNK
+SIG_AGEJUNK = SIG_JUNK
+SIG_AGENEG = 'C11 / creation time ahead of the local clock: Bundle Age encoded as a negative integer'
+# fixed in /repo (df72a19, ed76b97, 1355258; status=fixed in known_findings.json): a tree that shows them again gets a VIOLATION
+SIG_HOP_STALE = 'C11 / forwarded hop count unchanged on the wire'
+SIG_STICKY = 'C11 / block number of added previous-node/age block sticks across bundles (class-level overloaded_fields)'
 SIG_MULTI = 'C11 / two or more received previous-node or age blocks: every second one kept'
 SIG_PREV2 = SIG_MULTI
 SIG_AGE2 = SIG_MULTI
-SIG_PREVJUNK = 'C11 / previous-node count / received type-6 block whose data does not dissect stays next to the new one'
-SIG_AGEJUNK = 'C11 / bundle-age count / received type-7 block whose data does not dissect stays next to the new one'
-SIG_AGENEG = 'C11 / bundle-age value / creation time ahead of the local clock (age encoded as a negative integer)'
-SIG_HOP_STALE = 'C11 / forwarded hop count unchanged on the wire'
-SIG_STICKY = 'C11 / block number of added previous-node/age block sticks across bundles (class-level overloaded_fields)'
 # Genuine deviations of the current tree found by this check's oracle, shown to the coordinator with their
 # witnesses (harness/corpus/C11_*.json), awaiting a decision (fix: commit or known_findings.json).  While a
 # signature is listed here and not in known_findings.json the failure is printed as PENDING-FINDING and does not
 # fail the run; once listed there it goes through chk.fail() and prints KNOWN-FINDING.
-PENDING_FINDINGS = [SIG_TIME0, SIG_LIFE0, SIG_EID, SIG_EID_ADMIN, SIG_PREVJUNK, SIG_AGEJUNK, SIG_AGENEG]
+PENDING_FINDINGS = [SIG_TIME0, SIG_LIFE0, SIG_EID, SIG_JUNK, SIG_AGENEG]
 
 NODES = ['dtn://me/', 'dtn://node-7/', 'ipn:9.0', 'ipn:4.1', 'dtn://n/svc']
 NODE_UNSTABLE = 'dtn://me'                      # the text conversion turns it into dtn://me/
